@@ -331,6 +331,10 @@ def _one_param(log, cfg, modn, clsn, pname, layer, bg):
             else:
                 # value was altered by post-read code (unit normalisation such as depth km->m): it must at least have been in range
                 _d(log, c, f'{what}: a value normalised after reading was inside the documented range', inr, zv, concrete, is_int)
+                if name not in KNOWN_NORMALISED and not is_int:
+                    same = z3.fpEQ(prm.value.t, v) if isinstance(prm.value, SymFP) else z3.BoolVal(False)
+                    _d(log, c, 'accepted: a value inside the documented range is stored exactly as given (not rescaled, clamped or otherwise altered)',
+                       z3.Or(same, is_default, is_before), zv, concrete, is_int)
 
 
 def _d(log, c, name, prop, zv, concrete, is_int, sample=False):
@@ -399,6 +403,11 @@ def _int_module(log, cfg, modn, clsn, pname, bg, shadows):
     log.note('integer parameters at module level: decided by exhaustive enumeration of the finite option domain, not by the solver')
 
 
+# parameters whose own value the reading code normalises after accepting it (the only two on the pinned tree): depth km -> m, impedance GPa.s/m3 scaling.
+# Every other accepted value must be stored exactly as given: a new magnitude heuristic that rescales an in-range value is 'altered', not 'used as given'.
+KNOWN_NORMALISED = {'Reservoir Depth', 'Reservoir Impedance'}
+
+
 def concrete_read(modn, clsn, pname, layer, bg, value):
     """replay on the real code, no proxies: returns (violated, detail)."""
     obj, model, mod = _make(modn, clsn)
@@ -440,6 +449,9 @@ def concrete_read(modn, clsn, pname, layer, bg, value):
         bad = member or name not in str(exc) or not isinstance(exc, ValueError)
         return bool(bad), detail
     if member:
+        if not is_int and name not in KNOWN_NORMALISED and not sentinel and isinstance(after, (int, float)) and not isinstance(after, bool) and float(after) != v:
+            detail['altered'] = 'an accepted in-range value was stored as a different number'
+            return True, detail
         return False, detail
     if sentinel:
         return False, detail
@@ -561,8 +573,58 @@ def _one_unit(log, cfg, modn, clsn, pname, u):
 
 
 # ---------------------------------------------------------------------------------------------------------
+# ---- 'accepted and USED': HIP-RA-X, whose Calculate replaces 'not provided' inputs by derived values ------------------------------------
+def run_hip_used(unit):
+    """every in-range value (both bounds included) that the reader accepted is the value the assessment computes with: after the real
+    Calculate the parameter still holds it (Calculate overwrites the parameters it considers 'not provided' with derived values)."""
+    from . import c17
+    cfgc = {'depth_provided': True, 'pressure_provided': True, 'fluid_props_given': True}
+    o0 = c17.fresh()
+    rng = {n: (lo, hi) for n, lo, hi in c17.INPUTS}
+    for pname in [n for n, _, _ in c17.INPUTS]:
+        prm0 = getattr(o0, pname)
+        if not hasattr(prm0, 'Min'):
+            continue      # integer (option-set) parameters are covered by the reader layers
+        lo, hi = float(prm0.Min), float(prm0.Max)
+        cfg = {'layer': 'hip-calculate', 'class': 'HIP_RA_X', 'param': prm0.Name}
+        log = harness.UnitLog(cfg)
+        others = {n: float(getattr(o0, n).value) for n, _, _ in c17.INPUTS if n != pname}
+        for n in others:      # a plausible, fully provided background
+            if others[n] < rng[n][0] or others[n] > rng[n][1] or others[n] <= 0:
+                others[n] = (rng[n][0] + rng[n][1]) / 2 if n not in ('fluid_density', 'rock_density') else 2.5e12
+        others.update({'reservoir_temperature': 250.0, 'rejection_temperature': 60.0, 'reservoir_porosity': 10.0, 'reservoir_area': 50.0, 'reservoir_thickness': 0.25,
+                       'reservoir_depth': 2.0, 'reservoir_pressure': 20.0, 'fluid_heat_capacity': 4.2, 'fluid_density': 9e11})
+        others.pop(pname, None)
+
+        def drive(v, symbolic, pname=pname, others=others):
+            vals = dict(others)
+            vals[pname] = v
+            o = c17.drive(cfgc, vals, symbolic)
+            return getattr(o, pname).value
+
+        def concrete(inp, drive=drive):
+            v = float(inp['v'])
+            try:
+                after = float(drive(v, False))
+            except Exception as e:
+                return False, {'no result': repr(e)[:120]}
+            return not harness.close(after, v, rel=1e-12), {'given (accepted by the reader)': v, 'value the assessment used': after}
+        zv = {'v': z3.Real('v')}
+        k = 0
+        for pr in core.explore(lambda: drive(core.sym('v', lo, hi), True), max_paths=200, catch=(RuntimeError, ValueError)):
+            log.path(pr)
+            k += 1
+            if pr.aborted or pr.error is not None:
+                continue
+            harness.reachable(log, pr.ctx, 1000)
+            after = pr.value
+            harness.discharge(log, pr.ctx, f'{prm0.Name}: a value inside [Min, Max] (bounds included) is the value the assessment is computed with',
+                              core.lift(after) == z3.Real('v'), zv, concrete, sample=(k == 1))
+        yield log.result()
+
+
 def units(tier, seed):
-    us = []
+    us = [{'layer': 'hip-calculate'}]
     srcs = list(gx.SOURCE_CLASSES) + [('hip_ra_x.hip_ra_x', 'HIP_RA_X')]
     for modn, clsn in srcs:
         us.append({'layer': 'reader', 'module': modn, 'cls': clsn})
@@ -574,7 +636,9 @@ def units(tier, seed):
 
 
 def run_unit(unit):
-    if unit['layer'] == 'units':
+    if unit['layer'] == 'hip-calculate':
+        yield from run_hip_used(unit)
+    elif unit['layer'] == 'units':
         yield from run_units_layer(unit)
     else:
         yield from run_source(unit)
@@ -584,7 +648,7 @@ def replay(cex):
     cfg = cex['config']
     srcs = dict((c, m) for m, c in list(gx.SOURCE_CLASSES) + [('hip_ra_x.hip_ra_x', 'HIP_RA_X')])
     modn = srcs[cfg['class']]
-    if cfg['layer'] == 'units':
+    if cfg['layer'] in ('units', 'hip-calculate'):
         raise NotImplementedError
     val = cex['inputs'].get('v', cex['inputs'].get('k'))
     if isinstance(val, str):
